@@ -14,7 +14,7 @@ for pid in sorted(registry.PROPERTIES):
         thorough_cmd=f'./check {pid} --tier thorough',
         evidence_file=f'/verif/evidence/{pid}.json',
         replay_cmd_template=f'./check {pid} --replay {{path}}',
-        engine='verus+kani' if d.get('kani') and d.get('verus') else ('kani' if d.get('kani') else 'verus'),
+        engine='+'.join(e for e in ('verus', 'kani', 'enum') if d.get(e)),
         level_claimed=dict(category=d['level'], text=d['claim'], design_ref=f'DESIGN.md section 5/{pid}'),
         level_note=d['note'],
         technique=d['technique'],
@@ -27,6 +27,8 @@ m = dict(
     engines=[
         dict(name='verus', path='/verif/vx', serves_properties=sorted(p for p, d in registry.PROPERTIES.items() if d.get('verus')),
              kind_free_text='contract-based deductive verification: functions cut mechanically from /repo on every run, contracts spliced in, Verus 0.2026.09.13 / Z3 discharges every obligation (unbounded)'),
+        dict(name='enum', path='/verif/kx/enumrun.py', serves_properties=sorted(p for p, d in registry.PROPERTIES.items() if d.get('enum')),
+             kind_free_text='bounded stand-in only: native exhaustive enumeration of the real function up to a stated bound against an independent oracle (for string code neither verifier reaches); never counted as proved'),
         dict(name='kani', path='/verif/kx', serves_properties=sorted(p for p, d in registry.PROPERTIES.items() if d.get('kani')),
              kind_free_text='Kani 0.68 / CBMC on a scratch copy of the real crates: loop-free full-domain harnesses (complete) and explicitly bounded stand-ins (never counted as proved)'),
     ],
